@@ -33,6 +33,14 @@ def oracle_serial(r: dict) -> list[str]:
             msgs.append(f'{op!r} was refused but had effects: {rep}')
         if prev == 'closed' and st != 'closed':
             msgs.append(f'closed was left: → {st}')
+        # the documented diagram: from `prev`, which of run / reset are allowed; a disallowed request must be refused with an error
+        name = {'run': 'run', 'rac': 'run_and_continue', 'rcw': 'run_continue_and_wait', 'reset': 'reset'}.get(op.split()[0])
+        if name is not None:
+            allowed = {'run': prev == 'initialized', 'run_and_continue': prev == 'initialized', 'run_continue_and_wait': prev == 'initialized',
+                       'reset': prev in ('initialized', 'finished')}[name]
+            mine = [t for t in rets if t.split(':')[1] == name]
+            if not allowed and mine and not mine[0].endswith(('MachineError', 'RuntimeError', 'AssertionError')) and 'blocked:' not in rep:
+                msgs.append(f'{op!r} in state {prev} is not allowed by the diagram but was not refused with an error: {mine[0]}')
         prev = st
     return msgs
 
